@@ -91,6 +91,10 @@ def CE.hasPre (e : CE) : Bool := e.preQ || e.preU || e.preZ || !e.preDV.isEmpty 
 def CE.invN (e : CE) (n : Nat) : CE :=
   if n = 0 then e else { e with stamp := 0, flag := false, valVer := e.valVer + n, fresh := false }
 
+/-- ghost bookkeeping of `restoreToStage(g)` from stage `cur`: the depends-on stage of `e` is invalidated -/
+def CE.unfresh (e : CE) (g cur : Nat) : CE :=
+  if g < e.dep ∧ e.dep ≤ cur then { e with fresh := false } else e
+
 /-- `DiscreteVarInfo` -/
 structure DV where
   alloc : Nat
@@ -251,7 +255,7 @@ def Sub.restore (sb : Sub) (g : Nat) : Sub :=
     dvs := popBack DV.alloc g sb.dvs,
     -- ghost: the depends-on stage of these entries is being invalidated ("the validity indicator is cleared
     -- automatically whenever the Subsystem stage is reduced below `earliest`")
-    ces := (popBack CE.alloc g sb.ces).map (fun e => if g < e.dep ∧ e.dep ≤ sb.cur then { e with fresh := false } else e) }
+    ces := (popBack CE.alloc g sb.ces).map (fun e => e.unfresh g sb.cur) }
 
 /-- the cache entries (with their keys) that `restoreToStage(g)` destructs in subsystem `s` -/
 def Sub.popped (sb : Sub) (s : Nat) (g : Nat) : List (Key × CE) :=
@@ -601,6 +605,13 @@ def resS (st : St) (op : SOp) : Res :=
 
 /-! ## copying -/
 
+/-- `CacheEntryInfo::deepAssign` (dependents are `ResetOnCopy`); ghost: a copied entry stays `fresh` only if its
+depends-on stage was copied and it has no prerequisites (those are re-registered as not up to date) -/
+def CE.copied (e : CE) (tg : Nat) : CE :=
+  { e with deps := [], fresh := e.fresh && decide (e.dep ≤ tg) && !e.hasPre }
+/-- `DiscreteVarInfo::deepAssign` -/
+def DV.copied (d : DV) : DV := { d with deps := [] }
+
 /-- `PerSubsystemInfo(const PerSubsystemInfo&)`: `initialize(); copyFrom(src, Stage::Instance)` -/
 def Sub.copyOf (src : Sub) : Sub :=
   let tg := min src.cur 3
@@ -613,9 +624,8 @@ def Sub.copyOf (src : Sub) : Sub :=
     uerrInfo := popBack Al.alloc tg src.uerrInfo,
     udoterrInfo := popBack Al.alloc tg src.udoterrInfo,
     trig := popBack Tr.alloc tg src.trig,
-    dvs := (popBack DV.alloc tg src.dvs).map (fun d => { d with deps := [] }),
-    -- ghost: a copied entry stays `fresh` only if its depends-on stage was copied and it has no prerequisites
-    ces := (popBack CE.alloc tg src.ces).map (fun e => { e with deps := [], fresh := e.fresh && decide (e.dep ≤ tg) && !e.hasPre }) }
+    dvs := (popBack DV.alloc tg src.dvs).map DV.copied,
+    ces := (popBack CE.alloc tg src.ces).map (fun e => e.copied tg) }
 
 /-- `registerWithPrerequisitesAfterCopy` -/
 def St.registerAll (st : St) : St :=
